@@ -122,21 +122,20 @@ Example dpkg_example_run :
 Proof. vm_compute. reflexivity. Qed.
 
 (* ------------------------------------------------------------------ requirements.txt (byte level) *)
-(* The full statement is FALSE for the extractor: well-formed pinned requirements (PEP 508 names) are
-   dropped or mangled.  Witness: "Flask-Caching==2.0.1 / Flask-Cors==3.0.10" come out as two ("Flask", "")
-   (the per-requirement option pattern "-C" is searched anywhere in the line); names with '.' such as
-   zope.interface, and one-letter names, are dropped by the extractor's own name pattern.
-   KNOWN_FINDINGS.d/C03.json: requirements-option-marker-in-name, requirements-dotted-name-dropped. *)
+(* The full statement is FALSE for the extractor: well-formed pinned requirements whose project name has a
+   '.' (zope.interface, ruamel.yaml ...) or a single character are dropped by the extractor's own name
+   pattern.  KNOWN_FINDINGS.d/C03.json: requirements-dotted-name-dropped.
+   (The second defect recorded earlier - names containing "-C" such as Flask-Caching cut at the option marker -
+   was repaired by fix 334a4f50; its witness is a regression case now, see requirements_flask_regression.) *)
 Theorem requirements_roundtrip_refuted :
   exists rs l, wf_rq_records rs = true /\ wf_rq_layout rs l = true /\
                parse_requirements (render_requirements rs l) <> Ok (expected_requirements rs).
 Proof. exact requirements_refuted_lemma. Qed.
 Print Assumptions requirements_roundtrip_refuted.
 
-(* On the domain D (names accepted by the extractor's name pattern; no requirement line containing
-   --hash / --global-option / --config-settings / -C) the pinned sub-grammar round-trips: any number of
-   name==version lines with blanks around name, == and version, LF or CRLF, comment / blank / option
-   lines (-i, --index-url, -e ...) anywhere, final newline or not. *)
+(* On the domain D (every name accepted by the extractor's name pattern: two or more characters, no '.') the
+   pinned sub-grammar round-trips: any number of name==version lines with blanks around name, == and version,
+   LF or CRLF, comment / blank / option lines (-i, --index-url, -e ...) anywhere, final newline or not. *)
 Theorem requirements_roundtrip_on_D : forall rs l,
   wf_rq_records rs = true -> wf_rq_layout rs l = true -> rq_in_D rs l = true ->
   parse_requirements (render_requirements rs l) = Ok (expected_requirements rs).
@@ -155,9 +154,10 @@ Proof. vm_compute. reflexivity. Qed.
 Example requirements_example_run :
   parse_requirements (render_requirements ex_rq_rs ex_rq_l) = Ok [([80;121;89;65;77;76], [54;46;48]); ([97;45;98], [49;46;48;46;112;111;115;116;49])].
 Proof. vm_compute. reflexivity. Qed.
-Example requirements_flask_observed :
-  parse_requirements (render_requirements rq_flask rq_plain_layout) = Ok [([70;108;97;115;107], []); ([70;108;97;115;107], [])].
-Proof. vm_compute. reflexivity. Qed.
+Example requirements_flask_regression :
+  rq_in_D rq_flask rq_plain_layout = true /\
+  parse_requirements (render_requirements rq_flask rq_plain_layout) = Ok (expected_requirements rq_flask).
+Proof. vm_compute. split; reflexivity. Qed.
 Example requirements_zope_observed : parse_requirements (render_requirements rq_zope rq_plain_layout) = Ok [].
 Proof. vm_compute. reflexivity. Qed.
 
